@@ -89,6 +89,8 @@ type pageSpec struct {
 
 	mapDesc bool // iterate tabula's tie-breaking maps in descending key order (overlay seam)
 
+	tokOff, hebOff int // first token index (reuse sub-space: page B gets tokens disjoint from page A)
+
 	frags  []frag
 	scaleF float64
 }
@@ -199,7 +201,7 @@ func (p *pageSpec) colX(col int) float64 {
 }
 
 func (p *pageSpec) build() {
-	ts := &tokenSrc{charfrag: p.charfrag}
+	ts := &tokenSrc{charfrag: p.charfrag, n: p.tokOff, hn: p.hebOff}
 	space := textWidth(" ", bodySize)
 	cw := p.colW()
 	var out []frag
